@@ -11,13 +11,7 @@ use proptest::prelude::*;
 
 /// the oracle on one byte string: only parser-accepted inputs make a claim
 pub fn reserialise_oracle(b: &[u8], case: &mut Case) -> Result<bool, Fail> {
-    let p1 = match parse(b)? {
-        Ok(p) => p,
-        Err(_) => {
-            case.class("rejected");
-            return Ok(false);
-        }
-    };
+    let Some(p1) = parse_if_accepted(b, case) else { return Ok(false) };
     case.class("accepted");
     let o1 = lib("observe", || observe(&p1))?;
     // the writer-based entry points serialise too: for a quarter of the accepted inputs they write into a pre-filled
@@ -57,6 +51,11 @@ pub fn reserialise_oracle(b: &[u8], case: &mut Case) -> Result<bool, Fail> {
                 }
             }
             for (how, bytes) in outs {
+                if bytes.len() > 65535 && matches!(parse(&bytes), Ok(Err(_))) {
+                    // the packet does not fit a DNS message in this form: refusing the over-long output makes no claim
+                    case.class("output-longer-than-a-dns-message-and-refused:no-claim");
+                    continue;
+                }
                 let p2 = parse(&bytes)?.map_err(|e| Fail::new("c11:writer-reparse-failed", format!("what {} wrote into {} is rejected: {:?}; input {}", tag, how, e, hex(&b[..b.len().min(120)]))))?;
                 let o2 = lib("observe", || observe(&p2))?;
                 ensure!(o2 == o1, "c11:writer-differs", "after parse -> {} into {} -> parse: {}; input {}", tag, how, diff(&o1, &o2), hex(&b[..b.len().min(160)]));
@@ -67,6 +66,10 @@ pub fn reserialise_oracle(b: &[u8], case: &mut Case) -> Result<bool, Fail> {
         let what = if compressed { "build_bytes_vec_compressed" } else { "build_bytes_vec" };
         let out = if compressed { lib(what, || p1.build_bytes_vec_compressed())? } else { lib(what, || p1.build_bytes_vec())? };
         let out = out.map_err(|e| Fail::new("c11:rebuild-failed", format!("{} failed on a parsed packet: {:?}; input {}", what, e, hex(&b[..b.len().min(120)]))))?;
+        if out.len() > 65535 && matches!(parse(&out), Ok(Err(_))) {
+            case.class("output-longer-than-a-dns-message-and-refused:no-claim");
+            continue;
+        }
         let p2 = parse(&out)?.map_err(|e| {
             Fail::new(
                 if compressed { "c11:reparse-failed-compressed" } else { "c11:reparse-failed" },
